@@ -259,7 +259,7 @@ CHECKS = {
         "level_note": "Shares only OpenSSL's primitive with the library. Paths up to 8 hops in the quick tier, 40 in the thorough tier.",
         "stages": [{"driver": BGPSEC,
                     "quick": {"procs": 8, "rc": (2500, 100)},
-                    "thorough": {"procs": 16, "rc": (8000, 100), "timeout": 7200}}],
+                    "thorough": {"procs": 16, "rc": (3000, 100), "timeout": 7200}}],
     },
     "C12": {
         "level": "exploration",
@@ -273,7 +273,7 @@ CHECKS = {
         "level_note": "Shares only OpenSSL's primitive with the library.",
         "stages": [{"driver": BGPSEC,
                     "quick": {"procs": 8, "rc": (4000, 100)},
-                    "thorough": {"procs": 16, "rc": (5000, 100), "timeout": 7200}}],
+                    "thorough": {"procs": 16, "rc": (2500, 100), "timeout": 7200}}],
     },
     "C15": {
         "level": "exploration",
